@@ -169,7 +169,9 @@ def ext_w(ext):
     return [[k, v] for k, v in sorted((ext or {}).items())]
 
 
-def case_line(op, mode, cc, cat, key, d, tags, ext, kind=None):
+def case_line(op, mode, cc, cat, key, d, tags, ext, kind=None, for_model=False):
+    if for_model and kind is not None:
+        kind = kind % 2       # the model knows "dated by issue date" / "dated by value date"; the document type is Go's business
     head = ["c12", op, str(mode)] + ([str(kind)] if kind is not None else [])
     return " ".join(head) + " " + wl(cc, cat, key, list(d), list(tags), ext_w(ext))
 
@@ -220,7 +222,10 @@ def gen_table_cases(c, regs, quick):
                 dates = sorted(set(dates))
                 for tags, ext in contexts_of(vals):
                     for d in dates:
-                        for op, kind in (("lookup", None), ("prepare", None), ("invoice", 0), ("invoice", 1)):
+                        kinds = [("lookup", None), ("prepare", None), ("invoice", 0), ("invoice", 1)]
+                        if d in starts or d in FIXED_DATES:
+                            kinds += [("invoice", 2), ("invoice", 3), ("invoice", 4), ("invoice", 5)]   # orders and deliveries
+                        for op, kind in kinds:
                             cases.append(dict(stream="tables", op=op, kind=kind, cc=cc, cat=cat["code"], key=rt["key"],
                                               d=d, tags=tags, ext=ext, boundary=d in starts))
                 # composite key (Key.Has path) and unknown keys, one boundary date each
@@ -354,7 +359,7 @@ def line_of(case, mode):
 def describe(case):
     how = {"lookup": "RateDef.Value", "prepare": "tax.TotalCalculator", "invoice": "bill.Invoice.Calculate"}[case["op"]]
     if case["op"] == "invoice":
-        how += " (%s)" % ("issue_date" if case["kind"] == 0 else "value_date")
+        how = "bill.%s.Calculate (%s)" % (["Invoice", "Order", "Delivery"][case["kind"] // 2], "issue_date" if case["kind"] % 2 == 0 else "value_date")
     ctx = ""
     if case["tags"] or case["ext"]:
         ctx = " tags=%s ext=%s" % (list(case["tags"]), case["ext"])
